@@ -3,7 +3,7 @@
 From Coq Require Import List NArith ZArith.
 From Coq.Strings Require Import Byte.
 From Coq Require Import Extraction ExtrOcamlBasic.
-From GI Require Import Lib.Bytes Gen.TsBatchConsts TsBatch.TsBatch TsBatch.TsCleanup TsDeadline.TsDeadline TsDeadline.TsTimed TsDeadline.TsRuns.
+From GI Require Import Lib.Bytes Gen.TsBatchConsts TsBatch.TsBatch TsBatch.TsCleanup TsDeadline.TsDeadline TsDeadline.TsTimed TsDeadline.TsRuns TsDeadline.TsLate.
 Extraction Language OCaml.
 Extraction "extracted/tsbatch/model.ml" Byte.of_N Byte.to_N
   run init start alone step round_robin steps_bound initial_env setup_tree expected_node host_reads remove_all
@@ -12,4 +12,5 @@ Extraction "extracted/tsbatch/model.ml" Byte.of_N Byte.to_N
   texec tinit fg_tpar obligations
   timed_out_message min_grace grace_divisor grace_reserve
   remove_all_at remove_all_now remove_all_chmods_dirs_only gget rm_path symlink_at
-  run_calls run_calls_now single_call wos_return fg_exec_gen interrupt_error_wins grace_period_is_local.
+  run_calls run_calls_now single_call wos_return fg_exec_gen interrupt_error_wins grace_period_is_local
+  script_ctx_deadline fg_params_at child_env setup_env defers_verdict exec_env_appends_pwd ctx_created_once_in_runt early_cleanup_only_without_scripts.
